@@ -129,3 +129,9 @@ def run(ck: Checker):
         c01.check_singlelane(ck, 'C01-4')
         c09.check_wait_discipline(ck, 'C09-6', modules=(QUEUES,), minimum=2)
         c05.check_no_prefetch(ck, 'C05-7')
+    # an early stop must stop the look-ahead: while the clean-up drains the hand-off queue the feeder refills every freed
+    # slot from the source unless the stop flag was set first
+    with ck.as_rule('C08-6', 'the look-ahead ends with the consumer: the stop flag is set on every abnormal consumer exit before the clean-up drains the queue, the producer polls it in every iteration, and the join of the producer cannot wedge (the C05-3/-4 obligations of all five producer/consumer pairs)', minimum=10):
+        for p in ps:
+            c05.check_stop_flag(ck, 'C05-3', p)
+            c05.check_join_safety(ck, 'C05-4', p)
